@@ -445,6 +445,43 @@ theorem uploadDirOver_eq_overlay (chunk : Nat) (hc : 1 ≤ chunk) (f : Filter) :
         | ok r => exact uploadDirOver_eq_overlay chunk hc f rest (ds.set n r)
 end
 
+/-! ### shape is reflexive; what a transfer produces is regular (for idempotence and round trips) -/
+
+mutual
+theorem sameShape_refl : ∀ t : Tree, sameShape t t = true
+  | .file _ => by simp only [sameShape]
+  | .other => by simp only [sameShape]
+  | .dir es => by simp only [sameShape]; exact sameShapeEntries_refl es
+theorem sameShapeEntries_refl : ∀ es : Entries, sameShapeEntries es es = true
+  | .nil => by simp only [sameShapeEntries]
+  | .cons n t rest => by
+    simp only [sameShapeEntries, beq_self_eq_true, Bool.true_and, sameShape_refl t, sameShapeEntries_refl rest]
+end
+
+mutual
+theorem prune_regular (f : Filter) : ∀ (t pt : Tree), prune f t = some pt → regular pt = true
+  | .dir es, pt, h => by
+    simp only [prune] at h
+    injection h with h; subst h
+    simp only [regular]; exact pruneEntries_regular f es
+  | .file b, pt, h => by
+    simp only [prune] at h
+    injection h with h; subst h
+    simp only [regular]
+  | .other, pt, h => by simp [prune] at h
+theorem pruneEntries_regular (f : Filter) : ∀ es : Entries, regularEntries (pruneEntries f es) = true
+  | .nil => by simp only [pruneEntries, regularEntries]
+  | .cons n t rest => by
+    simp only [pruneEntries]
+    split
+    · cases hp : prune f t with
+      | some t' =>
+        simp only [regularEntries, Bool.and_eq_true]
+        exact ⟨prune_regular f t t' hp, pruneEntries_regular f rest⟩
+      | none => exact pruneEntries_regular f rest
+    · exact pruneEntries_regular f rest
+end
+
 /-! ### definitional lemmas (one-step unfoldings; not counted as property theorems) -/
 
 /-- a path that is neither a directory nor a regular file: `ValueError`, unless `ignore_invalid` (then
